@@ -989,6 +989,258 @@ def run_value_histories(rep, rng, thorough):
             rep.oracle_failures.append(bad)
 
 
+# ----------------------------------------------------------------------------- parameter identity vs. parameter name
+# A linear (optionally: + one convex quadratic term) model whose numbers are *slots*: plain floats or Parameter OBJECTS.
+# Several DISTINCT Parameter objects may carry the SAME name (a helper called twice), the same object may fill several
+# slots, names may be unique.  One Problem is solved, some objects are .set() (one of two same-named objects, both, a
+# swap of their values, back to the first value), and it is solved again.  The judge keeps its OWN table of the value
+# every object currently has (what the harness passed to the constructor / to set()) and derives from it
+#   * the objective at the returned values (plain Python arithmetic), and
+#   * the optimum of the current LP by a direct scipy.optimize.linprog call on harness-side arrays.
+# Nothing is read back from optyx (no Parameter.value, no LPData, no cache).
+
+PI_KINDS = ["objcoef", "concoef", "rhs", "const"]
+PI_FORMS = {"p": (1.0, 0.0), "2*p": (2.0, 0.0), "-p": (-1.0, 0.0), "p+1": (1.0, 1.0), "p/2": (0.5, 0.0)}
+PI_VALUES = [2.0, -1.0, 0.5, 3.0, -2.0, 1.0, 0.0, 4.0, -0.5, 1.5]
+PI_NAMINGS = ["same", "same", "pairs", "unique", "shared-object"]
+PI_LP_METHODS = ["auto", "linprog", "highs", "highs-ds", "highs-ipm"]
+PI_NLP_METHODS = ["SLSQP", "auto", "SLSQP", "trust-constr"]
+
+
+def pi_slot_value(slot, pvals):
+    """the number a slot stands for, from the harness's own table of parameter values"""
+    if slot[0] == "num":
+        return float(slot[1])
+    mul, add = PI_FORMS[slot[2]]
+    return mul * float(pvals[slot[1]]) + add
+
+
+def pi_slot_expr(slot, params):
+    if slot[0] == "num":
+        return float(slot[1])
+    p = params[slot[1]]
+    return {"p": lambda: p, "2*p": lambda: 2.0 * p, "-p": lambda: -p, "p+1": lambda: p + 1.0, "p/2": lambda: p / 2.0}[slot[2]]()
+
+
+def pi_build(data):
+    """-> (problem, variables, parameter objects)"""
+    from optyx import Parameter, Problem, Variable
+
+    n = data["n"]
+    xs = [Variable(f"{data['vname']}{i}", lb=data["lb"][i], ub=data["ub"][i]) for i in range(n)]
+    params = [Parameter(nm, v0) for nm, v0 in data["params"]]
+
+    def lin(coefs, flip):
+        e = None
+        for i, sl in enumerate(coefs):
+            if sl[0] == "num" and sl[1] == 0.0:
+                continue
+            c = pi_slot_expr(sl, params)
+            t = xs[i] * c if (flip + i) % 2 else c * xs[i]
+            e = t if e is None else e + t
+        return xs[0] * 0.0 if e is None else e
+
+    obj = lin(data["obj"], data["flip"])
+    for sl in data["const"]:
+        obj = obj + pi_slot_expr(sl, params)
+    if data.get("quad"):
+        a, t = data["quad"]
+        obj = obj + a * (xs[0] - t) ** 2
+    P = Problem()
+    P.minimize(obj) if data["sense"] == "min" else P.maximize(obj)
+    for k, con in enumerate(data["cons"]):
+        lhs = lin(con["coef"], data["flip"] + k + 1)
+        rhs = pi_slot_expr(con["rhs"], params)
+        P.subject_to(lhs <= rhs if con["sense"] == "<=" else lhs >= rhs)
+    return P, xs, params
+
+
+def pi_reference(data, pvals):
+    """the current LP solved by SciPy on harness-side numbers; -> optimum in the user's orientation | None"""
+    from scipy.optimize import linprog
+
+    sign = 1.0 if data["sense"] == "min" else -1.0
+    c = [sign * pi_slot_value(sl, pvals) for sl in data["obj"]]
+    A, b = [], []
+    for con in data["cons"]:
+        s = 1.0 if con["sense"] == "<=" else -1.0
+        A.append([s * pi_slot_value(sl, pvals) for sl in con["coef"]])
+        b.append(s * pi_slot_value(con["rhs"], pvals))
+    res = linprog(c, A_ub=A or None, b_ub=b or None, bounds=list(zip(data["lb"], data["ub"])), method="highs")
+    if res.status != 0:
+        return None
+    return sign * float(res.fun) + sum(pi_slot_value(sl, pvals) for sl in data["const"])
+
+
+def param_identity_history(data):
+    """-> (failure | None, number of judged solves)"""
+    P, xs, params = pi_build(data)
+    pvals = [float(v0) for _, v0 in data["params"]]          # the harness's own bookkeeping
+    judged = 0
+    for step, op in enumerate(data["ops"]):
+        if op[0] == "set":
+            params[op[1]].set(op[2])
+            pvals[op[1]] = float(op[2])
+            continue
+        if op[0] == "swap":
+            a, b = pvals[op[1]], pvals[op[2]]
+            params[op[1]].set(b)
+            params[op[2]].set(a)
+            pvals[op[1]], pvals[op[2]] = b, a
+            continue
+        with warnings.catch_warnings(), np.errstate(all="ignore"):
+            warnings.simplefilter("ignore")
+            try:
+                sol = P.solve(method=op[1])
+            except Exception:  # noqa: BLE001 - e.g. NonLinearError: an LP method on a model the library calls non-linear
+                # (a refusal is not an inconsistent answer); the history goes on through a general-purpose route
+                try:
+                    sol = P.solve(method=data.get("fallback", "SLSQP"))
+                except Exception:  # noqa: BLE001
+                    continue
+        if not sol.values or sol.objective_value is None:
+            continue
+        names = [v.name for v in xs]
+        if sorted(sol.values) != sorted(names) or list(sol.values) != [v.name for v in P.variables]:
+            return {"what": "keys of values differ from the problem's variable names", "keys": list(sol.values),
+                    "after": op, "step": step}, judged
+        x = [float(sol.values[nm]) for nm in names]
+        if not all(math.isfinite(t) for t in x) or not math.isfinite(sol.objective_value):
+            continue
+        judged += 1
+        cs = [pi_slot_value(sl, pvals) for sl in data["obj"]]
+        const = sum(pi_slot_value(sl, pvals) for sl in data["const"])
+        ind = sum(ci * xi for ci, xi in zip(cs, x)) + const
+        scale = 1.0 + sum(abs(ci) * max(abs(lo), abs(hi)) for ci, lo, hi in zip(cs, data["lb"], data["ub"])) + abs(const)
+        if data.get("quad"):
+            a, t = data["quad"]
+            ind += a * (x[0] - t) ** 2
+            scale += a * (max(abs(data["lb"][0]), abs(data["ub"][0])) + abs(t)) ** 2
+        want = float(P.objective.evaluate(sol.values))
+        if abs(ind - sol.objective_value) > 1e-7 * scale or abs(want - sol.objective_value) > 1e-7 * scale:
+            return {"what": "objective_value differs from the objective (at the parameter values the caller has set) "
+                            "evaluated at the reported values",
+                    "objective_value": sol.objective_value, "by_hand": ind, "objective.evaluate(values)": want,
+                    "parameter_values_set_by_caller": list(pvals), "values": dict(sol.values), "status": sol.status.name,
+                    "after": op, "step": step}, judged
+        if sol.status.name == "OPTIMAL" and not data.get("quad"):
+            ref = pi_reference(data, pvals)
+            if ref is not None and abs(ref - sol.objective_value) > 1e-3 * scale:
+                return {"what": "status OPTIMAL but the objective value is not the optimum of the model at the parameter "
+                                "values the caller has set (scipy.optimize.linprog on the same numbers)",
+                        "objective_value": sol.objective_value, "linprog_optimum": ref,
+                        "parameter_values_set_by_caller": list(pvals), "values": dict(sol.values),
+                        "after": op, "step": step}, judged
+    return None, judged
+
+
+def pi_case(rng, i):
+    """case i of the family: the positions of the first two parameter objects run through all pairs of
+    {objective coefficient, constraint coefficient, right-hand side, constant term}; which of them is updated first,
+    the naming scheme, equal / different first values, the expression form around the parameter, sense, route vary"""
+    n = rng.randint(2, 4)
+    m = rng.choice([1, 1, 2])
+    kind_a, kind_b = PI_KINDS[i % 4], PI_KINDS[(i // 4) % 4]
+    first_updated = (i // 16) % 2
+    naming = rng.choice(PI_NAMINGS)
+    equal_start = rng.random() < 0.65
+    quad = None if rng.random() < 0.8 else [rng.choice([1.0, 2.0, 0.5]), rng.choice([0.5, -0.25, 1.0])]
+    lb = [rng.choice([0.0, -1.0, 1.0]) for _ in range(n)]
+    ub = [lo + rng.choice([2.0, 3.0, 5.0]) for lo in lb]
+    num = lambda: ["num", rng.choice([1.0, 2.0, -1.0, 0.5, 3.0, -2.0])]  # noqa: E731
+    obj = [num() for _ in range(n)]
+    const = [["num", rng.choice([7.0, -2.5, 0.0, 1.25])]]
+    cons = []
+    for k in range(m):
+        coef = [["num", rng.choice([1.0, 1.0, 2.0, 0.5, -1.0])] for _ in range(n)]
+        sense = "<=" if rng.random() < 0.65 else ">="
+        mid = sum(c[1] * (lo + hi) / 2.0 for c, lo, hi in zip(coef, lb, ub))
+        cons.append({"coef": coef, "sense": sense, "rhs": ["num", mid + (1.0 if sense == "<=" else -1.0) * rng.choice([0.5, 1.0, 2.0])]})
+    const.append(["num", 0.0])
+    # free slots by kind; a slot is addressed by a path into (obj, const, cons)
+    free = {"objcoef": [("obj", j) for j in range(n)], "const": [("const", 0), ("const", 1)],
+            "concoef": [("coef", k, j) for k in range(m) for j in range(n)], "rhs": [("rhs", k) for k in range(m)]}
+
+    def cell(path):
+        if path[0] == "obj":
+            return obj, path[1]
+        if path[0] == "const":
+            return const, path[1]
+        if path[0] == "coef":
+            return cons[path[1]]["coef"], path[2]
+        return cons[path[1]], "rhs"
+
+    n_par = rng.choice([2, 2, 3, 4])
+    kinds = [kind_a, kind_b] + [rng.choice(PI_KINDS) for _ in range(n_par - 2)]
+    params, placed = [], []
+    base_name = rng.choice(["rate", "p", "cap", "k[0]", "x0"])
+    for j, kind in enumerate(kinds):
+        pool = free[kind] if free[kind] else free[[kk for kk in PI_KINDS if free[kk]][0]]
+        cont, key = cell(pool.pop(rng.randrange(len(pool))))
+        old = cont[key][1]
+        form = rng.choice(["p", "p", "p", "2*p", "-p", "p+1", "p/2"])
+        mul, add = PI_FORMS[form]
+        if naming == "shared-object" and j >= 1 and rng.random() < 0.6:
+            pidx = rng.randrange(len(params))                       # the SAME object in another slot
+        else:
+            name = {"same": base_name, "shared-object": base_name, "unique": f"{base_name}_{j}",
+                    "pairs": base_name if j < 2 else base_name + "b"}[naming]
+            same = [v for nm, v in params if nm == name]
+            if same and equal_start:
+                v0 = same[0]                                        # equal values at first
+            elif kind == "const" or old == 0.0:
+                v0 = rng.choice(PI_VALUES)
+            else:
+                v0 = (old - add) / mul                              # the slot keeps the number it had
+            if same and not equal_start and v0 in same:
+                v0 = v0 + 1.0
+            params.append([name, float(v0)])
+            pidx = len(params) - 1
+        cont[key] = ["par", pidx, form]
+        placed.append(pidx)
+    lp_route = rng.random() < 0.7
+    methods = PI_LP_METHODS if (lp_route and not quad) else PI_NLP_METHODS
+    ops = [["solve", rng.choice(methods)]]
+    for rnd in range(rng.randint(1, 3)):
+        r = rng.random()
+        tgt = placed[first_updated] if rnd == 0 else rng.choice(placed)
+        if r < 0.6 or len(params) < 2:
+            cur = params[tgt][1]
+            ops.append(["set", tgt, rng.choice([v for v in PI_VALUES if v != cur])])
+        elif r < 0.75:
+            other = rng.choice([p for p in range(len(params)) if p != tgt])
+            ops.append(["swap", tgt, other])
+        elif r < 0.9:
+            v = rng.choice(PI_VALUES)                                 # both of a pair, one after the other
+            ops.append(["set", tgt, v])
+            ops.append(["set", rng.choice(placed), rng.choice(PI_VALUES)])
+        else:
+            ops.append(["set", tgt, rng.choice(PI_VALUES)])
+            ops.append(["solve", rng.choice(methods)])
+            ops.append(["set", tgt, params[tgt][1]])                  # and back to the first value
+        ops.append(["solve", rng.choice(methods) if rng.random() < 0.7 else ops[0][1]])
+    return {"n": n, "vname": rng.choice(["x", "y1", "q"]), "lb": lb, "ub": ub, "sense": rng.choice(["min", "max"]),
+            "flip": rng.randint(0, 1), "params": params, "obj": obj, "const": const, "cons": cons, "quad": quad, "ops": ops,
+            "fallback": rng.choice(["SLSQP", "SLSQP", "auto"]),
+            "naming": naming, "equal_start": equal_start, "positions": [kind_a, kind_b], "first_updated": first_updated}
+
+
+def run_param_identity(rep, rng, thorough):
+    """distinct Parameter objects with equal names (and the same object in several slots, and unique names) in every
+    position of a linear model × solve / set-one-of-them / re-solve histories; judged on harness-side numbers"""
+    for i in range(480 if thorough else 80):
+        data = pi_case(rng, i)
+        bad, judged = param_identity_history(data)
+        rep.evaluations += judged
+        tag = f"param-identity:{data['naming']}:{'+'.join(data['positions'])}"
+        rep.histogram[tag] = rep.histogram.get(tag, 0) + judged
+        if judged:
+            rep.nontrivial.add(hash(("pi", str(data))))
+        if bad is not None:
+            bad.update({"kind_of_case": "param-identity", "data": data})
+            rep.oracle_failures.append(bad)
+
+
 def vm_case(data):
     """one problem written with vector / matrix handles; -> (status, list of failed look-up checks)"""
     from optyx import MatrixVariable, Problem, VectorVariable
@@ -1072,6 +1324,7 @@ def run(ctx) -> core.Report:
     run_lp_root_forms(rep, rng, thorough)
     run_objective_forms(rep, rng, thorough)
     run_value_histories(rep, rng, thorough)
+    run_param_identity(rep, rng, thorough)
     run_start_points(rep, rng, thorough)
     base.run_real_solves(rep, rng, 1500 if thorough else 120, check_consistent)
     vector_matrix_solves(rep, rng, 300 if thorough else 30)
@@ -1097,6 +1350,10 @@ def search(ctx, rep):
         getitem_cases(r2, rng, [r for r in todo[:60] for _ in range(8)])
         if r2.oracle_failures:
             return r2.oracle_failures[0]
+    # parameter objects vs. parameter names in solve / set / re-solve histories (cheap, judged on harness-side numbers)
+    run_param_identity(r2, rng, True)
+    if r2.oracle_failures:
+        return r2.oracle_failures[0]
     metas = base.run_stub_table(r2, rng, True)
     stub_consistency(r2, metas)
     stub_consistency(r2, run_lp_contract_table(r2))
@@ -1160,6 +1417,10 @@ def replay(payload) -> bool:
     if kind == "history":
         bad, _ = value_history(f["data"])
         print(bad)
+        return bad is None
+    if kind == "param-identity":
+        bad, judged = param_identity_history(f["data"])
+        print("judged solves:", judged, bad)
         return bad is None
     if kind == "objform":
         bad, status = objective_check(f["data"])
